@@ -673,8 +673,128 @@ def _macros(src, flags):
     return m
 
 
+ROLES = os.path.join(os.path.dirname(os.path.abspath(__file__)), "..", "spec", "function_roles.json")
+
+
+def content_fingerprint(fj):
+    """what a function body mentions, independent of every function, parameter and local name: literal values, enum
+    constants, member names, operator kinds (as a sorted list of strings)"""
+    out = set()
+    for n in fj["nodes"].values():
+        k = n.get("k")
+        if k in ("IntegerLiteral", "CharacterLiteral") and "val" in n:
+            out.add("%s:%s" % ("i" if k == "IntegerLiteral" else "c", n["val"]))
+        elif k == "StringLiteral":
+            out.add("s:" + str(n.get("str")))
+        elif k == "MemberExpr":
+            out.add("m:" + str(n.get("member")))
+        elif k == "DeclRefExpr" and isinstance(n.get("decl"), dict) and n["decl"].get("kind") in ("enumconst", "global"):
+            out.add("e:" + str(n["decl"].get("name")))
+        elif k in ("BinaryOperator", "UnaryOperator", "CompoundAssignOperator") and n.get("op"):
+            out.add("o:" + str(n["op"]))
+        elif k in ("WhileStmt", "ForStmt", "DoStmt", "SwitchStmt", "ConditionalOperator"):
+            out.add("k:" + k)
+    return sorted(out)
+
+
+def canonical_names(cfg, jsons):
+    """Recognise renamed internal functions.  `jsons` are the raw per-unit extractor outputs of one configuration.  A
+    function the reference table (spec/function_roles.json) expects in this configuration and that is missing is matched
+    against the functions the table does not know: same return and parameter types, and the best agreement of callers,
+    callees and file - accepted only when the best candidate is unique.  The match is applied by renaming the NEW name
+    back to the reference name everywhere in the facts (function, callee fields, access paths, source texts), so every
+    rule keeps addressing the function by its role.  Returns {reference name: name in the tree}.  A function that was
+    deleted (no candidate) stays missing: the rules that need it report the lost anchor."""
+    try:
+        with open(ROLES) as fh:
+            roles = json.load(fh)["roles"]
+    except (OSError, ValueError, KeyError):
+        return {}
+    present = {}
+    for j in jsons:
+        for f in j["functions"]:
+            present.setdefault(f["name"], []).append(f)
+    missing = [n for n, r in roles.items() if cfg in r["configs"] and n not in present]
+    unknown = [n for n in present if n not in roles]
+    if not missing or not unknown:
+        return {}
+
+    def callees_of(name):
+        out = set()
+        for f in present[name]:
+            for n in f["nodes"].values():
+                if n.get("k") == "CallExpr" and n.get("callee"):
+                    out.add(n["callee"])
+        return out
+    callees = {n: callees_of(n) for n in present}
+    callers = {}
+    for n, cs in callees.items():
+        for c in cs:
+            callers.setdefault(c, set()).add(n)
+
+    def jac(a, b):
+        a, b = set(a), set(b)
+        if not a and not b:
+            return 1.0
+        return len(a & b) / float(len(a | b))
+    mapping = {}
+    for _round in range(3):
+        inv = {v: k for k, v in mapping.items()}
+
+        def canon(names):
+            return {inv.get(x, x) for x in names}
+        changed = False
+        for e in missing:
+            if e in mapping:
+                continue
+            r = roles[e]
+            scored = []
+            for u in unknown:
+                if u in inv:
+                    continue
+                fu = present[u][0]
+                if [fu["ret"].get("ct")] + [q["type"].get("ct") for q in fu["params"]] != r["sig"].get(cfg):
+                    continue
+                sc = jac(canon(callers.get(u, ())), r["callers"]) + jac(canon(callees[u]) - {e}, set(r["callees"]) - {e})
+                sc += 2 * jac(content_fingerprint(fu), (r.get("content") or {}).get(cfg, ()))
+                if os.path.basename(fu["file"]) == r["file"]:
+                    sc += 0.5
+                if bool(fu["static"]) == bool(r["static"]):
+                    sc += 0.25
+                scored.append((sc, u))
+            scored.sort(reverse=True)
+            if scored and scored[0][0] >= 2.0 and (len(scored) == 1 or scored[0][0] > scored[1][0] + 0.2):
+                mapping[e] = scored[0][1]
+                changed = True
+        if not changed:
+            break
+    if not mapping:
+        return {}
+    inv = {v: k for k, v in mapping.items()}
+    rx = re.compile(r"(?<![\w])(%s)(?![\w])" % "|".join(re.escape(u) for u in sorted(inv, key=len, reverse=True)))
+
+    def ren(txt):
+        return rx.sub(lambda m: inv[m.group(1)], txt)
+    for j in jsons:
+        for f in j["functions"]:
+            if f["name"] in inv:
+                f["name"] = inv[f["name"]]
+            for n in f["nodes"].values():
+                if n.get("callee") in inv:
+                    n["callee"] = inv[n["callee"]]
+                d = n.get("decl")
+                if isinstance(d, dict) and d.get("kind") == "function" and d.get("name") in inv:
+                    d["name"] = inv[d["name"]]
+                for key in ("path", "src"):
+                    if isinstance(n.get(key), str) and rx.search(n[key]):
+                        n[key] = ren(n[key])
+    return mapping
+
+
 class FactBase:
-    def __init__(self, configs=None, keep=False):
+    def __init__(self, configs=None, keep=False, canonical=True):
+        self.canonical = canonical
+        self.renamed = {}
         if not os.path.exists(EXTRACTOR):
             raise AnalysisBroken("extractor not built: run ./tool/build.sh (MANIFEST setup_cmd)")
         self.configs = list(configs or CONFIGS)
@@ -712,6 +832,11 @@ class FactBase:
             results = list(ex.map(run, jobs))
         per = {}
         flags_of = {}
+        if self.canonical:
+            for cfg in self.configs:
+                m = canonical_names(cfg, [j for c, _s, j, _f in results if c == cfg])
+                if m:
+                    self.renamed[cfg] = m
         for cfg, src, j, fl in results:
             per.setdefault(cfg, []).append(TU(src, j, cfg))
             flags_of[cfg] = fl
